@@ -1,3 +1,4 @@
+import Oidc.Shapes
 import Oidc.Proofs.Strings
 import Oidc.Proofs.Handler5
 import Oidc.Proofs.Handler4
@@ -58,5 +59,11 @@ example : sanitizeIncoming 1024 "/ok?next=//evil.test".toList = "/ok?next=//evil
 example : resolveOrigin "//evil.test".toList = .other := by decide
 example : resolveOrigin "/\\evil.test".toList = .other := by decide
 example : resolveOrigin "https://evil.test".toList = .other := by decide
+
+/-! obligations against the regenerated shapes: the functions these theorems rest on still have the steps, guards, status
+    codes and literals the model was written against (`Oidc/Shapes.lean`) -/
+theorem shape_handleCallback_ok : Oidc.Shapes.Shape_handleCallback := by unfold Oidc.Shapes.Shape_handleCallback; rfl
+theorem shape_handleLogout_ok : Oidc.Shapes.Shape_handleLogout := by unfold Oidc.Shapes.Shape_handleLogout; rfl
+theorem shape_defaultInitiateAuthentication_ok : Oidc.Shapes.Shape_defaultInitiateAuthentication := by unfold Oidc.Shapes.Shape_defaultInitiateAuthentication; rfl
 
 end Oidc.Props.C15
